@@ -138,7 +138,7 @@ func parseArEntry(line []byte) (*ArEntry, error) {
 		return nil, fmt.Errorf("Malformed file entry line length")
 	}
 
-	if line[58] != 0x60 && line[59] != 0x0A {
+	if line[58] != 0x60 || line[59] != 0x0A {
 		return nil, fmt.Errorf("Malformed file entry line endings")
 	}
 
